@@ -17,6 +17,8 @@ pub enum Profile {
     Batch,
     Oversize,
     Regrow,
+    Growexp,
+    Expnext,
 }
 
 pub const PROFILES: [Profile; 8] = [
@@ -44,6 +46,8 @@ impl Profile {
             "batch" => Self::Batch,
             "oversize" => Self::Oversize,
             "regrow" => Self::Regrow,
+            "growexp" => Self::Growexp,
+            "expnext" => Self::Expnext,
             _ => return None,
         })
     }
@@ -60,6 +64,8 @@ impl Profile {
             Self::Batch => "batch",
             Self::Oversize => "oversize",
             Self::Regrow => "regrow",
+            Self::Growexp => "growexp",
+            Self::Expnext => "expnext",
         }
     }
 }
@@ -105,6 +111,7 @@ pub fn gen_cfg(rng: &mut Rng, kind: &'static str, profile: Profile, capmode: &st
         Profile::Batch => rng.pick(&[None, Some(1000u64), Some(400), Some(130)]),
         Profile::Scan => Some(rng.pick(&[2u64, 3, 4, 5, 8])),
         Profile::Oversize => Some(rng.pick(&[1u64, 2, 3, 5, 8, 10])),
+        Profile::Growexp => Some(rng.pick(&[6u64, 8, 10, 12, 16])),
         _ => match rng.below(12) {
             0 => None,
             1 => Some(0),
@@ -120,7 +127,7 @@ pub fn gen_cfg(rng: &mut Rng, kind: &'static str, profile: Profile, capmode: &st
     };
     let c = cap.unwrap_or(8);
     let weigher = match profile {
-        Profile::Oversize | Profile::Regrow => WeigherKind::Val,
+        Profile::Oversize | Profile::Regrow | Profile::Growexp => WeigherKind::Val,
         Profile::Growth => rng.pick(&[
             WeigherKind::VMod(4),
             WeigherKind::VMod(c + 2),
@@ -156,6 +163,17 @@ pub fn gen_cfg(rng: &mut Rng, kind: &'static str, profile: Profile, capmode: &st
             _ => (Some(3 * SEC), Some(SEC)),
         },
         Profile::Regrow => (None, None),
+        Profile::Expnext => match rng.below(4) {
+            0 => (None, None),
+            1 => (Some(rng.pick(&[SEC, 3 * SEC])), None),
+            2 => (None, Some(rng.pick(&[SEC, 3 * SEC]))),
+            _ => (Some(3 * SEC), Some(SEC)),
+        },
+        Profile::Growexp => match rng.below(3) {
+            0 => (Some(rng.pick(&[2 * SEC, 3 * SEC])), None),
+            1 => (None, Some(rng.pick(&[2 * SEC, 3 * SEC]))),
+            _ => (Some(3 * SEC), Some(2 * SEC)),
+        },
         Profile::Boundary => match rng.below(3) {
             0 => (Some(rng.pick(&durs)), None),
             1 => (None, Some(rng.pick(&durs))),
@@ -247,6 +265,133 @@ pub fn gen_case(seed: u64, kind: &'static str, profile: Profile, len: usize, whi
                 }
                 14 => out.push(format!("adv {}", rng.pick(&[1u64, 100_000_000, 600_000_000]))),
                 _ => push(&mut out, format!("ins {} {}", rng.below(nkeys), rng.below(3))),
+            }
+        }
+        if sync {
+            out.push("sync".into());
+            out.push("snap".into());
+        }
+        out.push("iter".into());
+        out.push("drop".into());
+        return out;
+    }
+    if profile == Profile::Expnext {
+        // Everything resident becomes stale at once (invalidate_all, or the clock passes every
+        // deadline) and the very next call is an invalidation, an update, a fresh insert, a lookup
+        // or a sync of one of those keys, inside or outside the housekeeping window: the purge
+        // loops then meet nodes whose entry has just left the map or has just been replaced.
+        let rounds = 2 + len / 10;
+        for _ in 0..rounds {
+            let n = 1 + rng.below(4);
+            let mut ks: Vec<u64> = Vec::new();
+            for _ in 0..n {
+                let k = rng.below(nkeys);
+                if white_box {
+                    out.push(format!("freq {}", k));
+                }
+                push(&mut out, format!("ins {} {}", k, rng.below(4)));
+                ks.push(k);
+            }
+            if sync && rng.chance(3, 4) {
+                push(&mut out, "sync".into());
+            }
+            if rng.chance(1, 3) {
+                push(&mut out, format!("get {}", rng.pick(&ks)));
+            }
+            let far = rng.chance(1, 3);
+            let by_clock = (cfg.ttl.is_some() || cfg.tti.is_some()) && rng.chance(1, 2);
+            if by_clock {
+                out.push(format!("adv {}", if far { 4 * SEC } else { 3 * SEC }));
+                if sync && !far && rng.chance(1, 2) {
+                    // stay inside the housekeeping window of a run that purged nothing yet
+                    push(&mut out, format!("has {}", nkeys + 3));
+                }
+            } else {
+                out.push(format!("adv {}", if far { 600_000_000 } else { 1000 }));
+                push(&mut out, "invall".into());
+            }
+            let k = rng.pick(&ks);
+            match rng.below(6) {
+                0 | 1 => push(&mut out, format!("inv {}", k)),
+                2 => push(&mut out, format!("ins {} {}", k, rng.below(4))),
+                3 => push(&mut out, format!("ins {} 1", nkeys + rng.below(3))),
+                4 => push(&mut out, format!("get {}", k)),
+                _ => {
+                    if sync { push(&mut out, "sync".into()) } else { push(&mut out, format!("has {}", k)) }
+                }
+            }
+            push(&mut out, "iter".into());
+            if sync && rng.chance(1, 2) {
+                push(&mut out, "sync".into());
+            }
+        }
+        if sync {
+            out.push("sync".into());
+            out.push("snap".into());
+        }
+        out.push("iter".into());
+        out.push("drop".into());
+        return out;
+    }
+    if profile == Profile::Growexp {
+        // Size-aware eviction and expiry pending at the same time: residents written at different
+        // clock readings fill a weighted cache, reads reorder them, an in-place update makes one
+        // heavier (the cache is over capacity until the next operation), the clock passes the
+        // deadline of some of them, and only then the next operation runs both purges.
+        let c = cfg.cap.unwrap_or(10);
+        let rounds = 2 + len / 12;
+        for _ in 0..rounds {
+            // start from an empty cache and fill it to the brim
+            push(&mut out, "invall".into());
+            if sync {
+                push(&mut out, "sync".into());
+            }
+            out.push("adv 1000".into());
+            let mut room = c;
+            let mut ks: Vec<u64> = Vec::new();
+            let mut wsv: Vec<u64> = Vec::new();
+            let base = rng.below(nkeys);
+            while room > 0 && ks.len() < 6 {
+                let k = (base + ks.len() as u64) % nkeys.max(7);
+                let w = if ks.len() == 5 || room <= 2 { room } else { 1 + rng.below(room.min(4)) };
+                room -= w;
+                if white_box {
+                    out.push(format!("freq {}", k));
+                }
+                push(&mut out, format!("ins {} {}", k, w));
+                ks.push(k);
+                wsv.push(w);
+                if rng.chance(1, 2) {
+                    out.push(format!("adv {}", rng.pick(&[SEC / 2, SEC, SEC + SEC / 2])));
+                }
+            }
+            if sync && rng.chance(2, 3) {
+                push(&mut out, "sync".into());
+            }
+            for _ in 0..rng.below(3) {
+                push(&mut out, format!("get {}", rng.pick(&ks)));
+            }
+            // the growing update: the cache is over capacity by 1..3 until the next operation
+            let i = rng.below(ks.len() as u64) as usize;
+            push(&mut out, format!("ins {} {}", ks[i], wsv[i] + 1 + rng.below(3)));
+            out.push(format!("adv {}", rng.pick(&[SEC / 2, SEC, SEC + SEC / 2, 2 * SEC, 3 * SEC, 1])));
+            if white_box {
+                // the window rules look at `snap, operation, snap`
+                out.push("snap".into());
+            }
+            match rng.below(5) {
+                0 => push(&mut out, format!("has {}", rng.pick(&ks))),
+                1 => push(&mut out, format!("get {}", rng.pick(&ks))),
+                2 => push(&mut out, format!("ins {} 1", nkeys + 8 + rng.below(3))),
+                3 => push(&mut out, format!("inv {}", rng.pick(&ks))),
+                _ => {
+                    if sync { push(&mut out, "sync".into()) } else { push(&mut out, format!("has {}", nkeys + 7)) }
+                }
+            }
+            push(&mut out, "iter".into());
+            if rng.chance(1, 3) {
+                out.push(format!("adv {}", rng.pick(&[SEC, 3 * SEC])));
+                push(&mut out, format!("get {}", rng.pick(&ks)));
             }
         }
         if sync {
@@ -390,7 +535,7 @@ pub fn gen_case(seed: u64, kind: &'static str, profile: Profile, len: usize, whi
                 Profile::Churn => (38, 14, 4, 2, 24, 3, 3, 6, 6),
                 Profile::Growth => (50, 18, 4, 3, 6, 1, 2, 8, 8),
                 Profile::Scan => (40, 45, 2, 1, 3, 0, 0, 6, 3),
-                Profile::Big | Profile::Batch | Profile::Oversize | Profile::Regrow => (55, 20, 2, 1, 8, 1, 1, 2, 10),
+                Profile::Big | Profile::Batch | Profile::Oversize | Profile::Regrow | Profile::Growexp | Profile::Expnext => (55, 20, 2, 1, 8, 1, 1, 2, 10),
             };
         let mut acc = 0;
         let mut pick = |p: u64| { acc += p; r < acc };
@@ -413,7 +558,21 @@ pub fn gen_case(seed: u64, kind: &'static str, profile: Profile, len: usize, whi
             if out.len() % 2 == 0 {
                 {
                     let d = step_choices[out.len() % step_choices.len()];
-                    push(&mut out, format!("iterlag {}", d));
+                    // on the concurrent cache every other one of these holds the iterator across
+                    // a call instead of a clock step (creating an iterator locks nothing)
+                    let sel = (out.len() / 2) % 8;
+                    if sync && sel < 4 {
+                        let k = (out.len() as u64 / 16) % nkeys;
+                        let inner = match sel {
+                            0 => "invall".to_string(),
+                            1 => format!("inv {}", k),
+                            2 => format!("ins {} {}", k, out.len() % 12),
+                            _ => "sync".to_string(),
+                        };
+                        push(&mut out, format!("iterover {}", inner));
+                    } else {
+                        push(&mut out, format!("iterlag {}", d));
+                    }
                 }
             } else {
                 push(&mut out, "iter".into());
